@@ -3,6 +3,86 @@ from pyvc.rt import *  # noqa: F401,F403
 
 PROPERTY = "C10"
 USES_NX = True
+HM = "synkit/Graph/Hyrogen/_misc.py"
 CLASSES = {}
-FUNCTIONS = {}
-BOUNDED_ONLY = True
+TRUSTED = ["A-nx-graph (Graph.copy is a fresh graph with equal node / edge sets and attribute values)", "A-builtins"]
+ASSUMPTIONS = ["only h_to_implicit is under contract; the exact new hydrogen count of a heavy atom (old count + number of removed hydrogen neighbours) needs a counting "
+               "invariant and is decided by the bounded twin, as are SMILES / GML conversions (RDKit, strings)"]
+
+
+def elem(G, n):
+    return G.nodes[n].get("element")
+
+
+def is_h(G, n):
+    return elem(G, n) == "H"
+
+
+def removable(G, n):
+    """an explicit hydrogen with at least one non-hydrogen neighbour"""
+    return is_h(G, n) and exists(G.nodes, lambda m: G.has_edge(n, m) and not is_h(G, m))
+
+
+FUNCTIONS = {
+    HM + "::h_to_implicit": {
+        "params": {"G": "obj:Graph"},
+        "vars": {"h_nodes": "list[any]", "neighbors": "list[any]"},
+        "returns": "obj:Graph",
+        "requires": ["forall(G.nodes, lambda n: isinstance(G.nodes[n].get('hcount', 0), int))"],
+        "modifies": [],
+        "ensures": [
+            "is_fresh(result)",
+            # exactly the hydrogens that have a heavy neighbour disappear; hydrogens without one (H2, a bare proton) stay
+            "forall('any', lambda n: result.has_node(n) == (G.has_node(n) and not removable(G, n)))",
+            # nothing but the hydrogen count of heavy atoms changes on the atoms that stay
+            "forall(result.nodes, lambda n: forall('str', lambda k: implies(k != 'hcount', same(result.nodes[n].get(k), G.nodes[n].get(k)))))",
+            "forall(result.nodes, lambda n: implies(is_h(G, n), same(result.nodes[n].get('hcount'), G.nodes[n].get('hcount'))))",
+            # the bonds between remaining atoms are the original ones
+            "forall(('any', 'any'), lambda u, v: result.has_edge(u, v) == (G.has_edge(u, v) and result.has_node(u) and result.has_node(v)))",
+            "forall(result.edges, lambda u, v: same(result[u][v], G[u][v]))",
+            # an atom without a removable hydrogen neighbour keeps its count; counts never decrease
+            "forall(result.nodes, lambda n: implies(not exists(G.nodes, lambda h: G.has_edge(n, h) and removable(G, h)), "
+            "       same(result.nodes[n].get('hcount'), G.nodes[n].get('hcount'))))",
+        ],
+        "loops": {
+            1: {"modifies": ["H2.nodes", "H2.nattr", "H2.adj", "H2.eattr"],
+                "step_hints": [
+                    "implies(not H2.has_node(h), removable(G, h))",
+                    "implies(H2.has_node(h), not removable(G, h))",
+                    "forall('any', lambda n: implies(not same(n, h), H2.has_node(n) == at_iter(H2.has_node(n))))",
+                    "forall(H2.nodes, lambda n: implies(H2.has_node(h) or not G.has_edge(n, h), same(H2.nodes[n].get('hcount'), at_iter(H2.nodes[n].get('hcount')))))",
+                    "forall(H2.nodes, lambda n: at_iter(H2.has_node(n)))",
+                    "forall(range(len(h_nodes)), lambda i: implies(not same(h_nodes[i], h), H2.has_node(h_nodes[i]) == at_iter(H2.has_node(h_nodes[i]))))",
+                    "forall(H2.nodes, lambda n: implies(at_iter(forall(range(done), lambda i: implies(G.has_edge(n, h_nodes[i]), H2.has_node(h_nodes[i])))), "
+                    "       at_iter(same(H2.nodes[n].get('hcount'), G.nodes[n].get('hcount')))))",
+                ],
+                "inv": [
+                    "forall(range(len(h_nodes)), lambda i: G.has_node(h_nodes[i]) and is_h(G, h_nodes[i]))",
+                    "forall(G.nodes, lambda m: implies(not is_h(G, m), H2.has_node(m)))",
+                    "forall((range(len(h_nodes)), range(len(h_nodes))), lambda i, j: implies(i != j, not same(h_nodes[i], h_nodes[j])))",
+                    "forall(G.nodes, lambda n: implies(is_h(G, n), exists(range(len(h_nodes)), lambda i: same(h_nodes[i], n))))",
+                    "forall(H2.nodes, lambda n: G.has_node(n))",
+                    "forall(G.nodes, lambda n: implies(not removable(G, n), H2.has_node(n)))",
+                    "forall(range(done), lambda i: implies(removable(G, h_nodes[i]), not H2.has_node(h_nodes[i])))",
+                    "forall(range(len(h_nodes)), lambda i: implies(i >= done, H2.has_node(h_nodes[i])))",
+                    "forall(H2.nodes, lambda n: forall('str', lambda k: implies(k != 'hcount', same(H2.nodes[n].get(k), G.nodes[n].get(k)))))",
+                    "forall(H2.nodes, lambda n: implies(is_h(G, n), same(H2.nodes[n].get('hcount'), G.nodes[n].get('hcount'))))",
+                    "forall(H2.nodes, lambda n: isinstance(H2.nodes[n].get('hcount', 0), int))",
+                    "forall(('any', 'any'), lambda u, v: H2.has_edge(u, v) == (G.has_edge(u, v) and H2.has_node(u) and H2.has_node(v)))",
+                    "forall(H2.edges, lambda u, v: same(H2[u][v], G[u][v]))",
+                    # an atom all of whose already processed hydrogen neighbours are still present has its original count
+                    "forall(H2.nodes, lambda n: implies(forall(range(done), lambda i: implies(G.has_edge(n, h_nodes[i]), H2.has_node(h_nodes[i]))), "
+                    "       same(H2.nodes[n].get('hcount'), G.nodes[n].get('hcount'))))",
+                ]},
+            2: {"modifies": ["H2.nattr"],
+                "inv": [
+                    "forall('any', lambda n: H2.has_node(n) == at_iter(H2.has_node(n)))",
+                    "forall(('any', 'any'), lambda u, v: H2.has_edge(u, v) == at_iter(H2.has_edge(u, v)))",
+                    "forall(H2.nodes, lambda n: forall('str', lambda k: implies(k != 'hcount', same(H2.nodes[n].get(k), at_iter(H2.nodes[n].get(k))))))",
+                    "forall(H2.nodes, lambda n: implies(is_h(G, n) or not H2.has_edge(h, n), same(H2.nodes[n].get('hcount'), at_iter(H2.nodes[n].get('hcount')))))",
+                    "forall(H2.nodes, lambda n: isinstance(H2.nodes[n].get('hcount', 0), int))",
+                    "forall(H2.edges, lambda u, v: same(H2[u][v], at_iter(H2[u][v])))",
+                ]},
+        },
+    },
+}
